@@ -1,11 +1,16 @@
 #!/bin/sh
-# usage: sweep.sh <out-log> <seed> [<seed> ...]   runs every claimed check at the quick tier for each seed (scratch evidence dir)
+# usage: sweep.sh <out-log> <seed> [<seed> ...]
+# Runs every claimed check for each seed with a *copy* of the current simulator binary (so that later edits or
+# seeded patches in /repo do not leak into a running sweep); evidence and replays go to a scratch directory.
 out="$1"; shift
+bin=/tmp/mlsim_sweep.$$
+cp /verif/sim/target/release/mlsim $bin || exit 2
 for s in "$@"; do
   for P in C01 C02 C03 C04 C05 C06 C07 C08 C09 C10 C11 C12 C13 C14 C15 C16 C17 C18 C19; do
-    r=$(cd /verif && VERIF_SEED=$s VERIF_DIR=/tmp/vt_sweep VERIF_JOBS=${VERIF_JOBS:-16} VERIF_TIER=${TIER:-quick} ./check $P 2>&1)
+    r=$(cd /verif/sim && VERIF_SEED=$s VERIF_DIR=/tmp/vt_sweep VERIF_JOBS=${VERIF_JOBS:-16} $bin check $P --tier ${TIER:-quick} 2>&1)
     rc=$?
     echo "seed=$s $P rc=$rc $(echo "$r" | grep -E 'VIOLATION|HARNESS' | head -2 | tr '\n' ' ') $(echo "$r" | grep -E 'signature=' | head -1) $(echo "$r" | grep -oE '[0-9]+ runs in [0-9.]+s')" >> "$out"
   done
 done
+rm -f $bin
 echo done >> "$out"
